@@ -1,25 +1,26 @@
 package trzsz
 
-import "io"
+// C13 — a relay never loses, duplicates or reorders bytes, under any scheduling.
+// The relay's real pumps (wrapInput, wrapOutput), the real handshake worker and the real flush run as threads of the
+// executor; with schedule exploration every interleaving at atomic/lock/channel granularity is a path.
 
-func verifNondetByte() byte
-func verifNondetInt() int
-func verifNondetBool() bool
-func verifNondetRange(lo, hi int) int
-func verifAssume(bool)
-func verifAssert(bool, string)
-func verifReach(string)
-func verifExpectBlock(int)
-func verifQuiesce()
-func verifLiveThreads() int
-func verifBlockForever()
+import (
+	"encoding/json"
+	"io"
+)
 
-type zzChunks struct {
+func json13(v interface{}) (string, error) {
+	b, err := json.Marshal(v)
+	return string(b), err
+}
+
+// zzChunks13 is the relay's upstream reader: delivers the given chunks, then stays silent forever.
+type zzChunks13 struct {
 	chunks [][]byte
 	idx    int
 }
 
-func (r *zzChunks) Read(p []byte) (int, error) {
+func (r *zzChunks13) Read(p []byte) (int, error) {
 	if r.idx >= len(r.chunks) {
 		verifBlockForever()
 		return 0, io.EOF
@@ -29,29 +30,248 @@ func (r *zzChunks) Read(p []byte) (int, error) {
 	return n, nil
 }
 
-func zzH_C13_flushRace() {
+func zzRelay13() *TrzszRelay {
 	r := &TrzszRelay{
-		osStdinChan:    make(chan []byte, 10),
-		osStdoutChan:   make(chan []byte, 10),
-		bypassTmuxChan: make(chan []byte, 10),
-		stdinBuffer:    newTrzszBuffer(),
-		stdoutBuffer:   newTrzszBuffer(),
+		osStdinChan:  make(chan []byte, 20),
+		osStdoutChan: make(chan []byte, 20),
+		stdinBuffer:  newTrzszBuffer(),
+		stdoutBuffer: newTrzszBuffer(),
 	}
+	r.bypassTmuxChan = r.osStdoutChan // not inside tmux: one client-side sink
+	r.trigger = &trzszTrigger{}
+	return r
+}
+
+// zzDrain13 empties a sink channel into one byte string (order preserved).
+func zzDrain13(ch chan []byte) []byte {
+	var out []byte
+	for len(ch) > 0 {
+		out = append(out, <-ch...)
+	}
+	return out
+}
+
+func zzExpect13(got, want []byte, label string) {
+	verifAssert(len(got) == len(want), label+": bytes lost or duplicated")
+	if len(got) == len(want) {
+		for i := range want {
+			verifAssert(got[i] == want[i], label+": bytes reordered or altered")
+		}
+	}
+}
+
+// client -> server direction: chunks arrive while the handshake worker performs its final flush
+func zzH_C13_flushRaceIn() {
+	r := zzRelay13()
 	r.relayStatus.Store(kRelayHandshaking)
-	// one chunk was parked before; two more arrive while the handshake worker flushes
-	r.stdinBuffer.addBuffer([]byte{65})
-	r.clientIn = &zzChunks{chunks: [][]byte{{66}, {67}}}
-	go r.wrapInput()
-	go r.flushHandshakeBuffer(true)
-	verifQuiesce()
-	// everything must have reached the server side in order 1,2,3
-	verifAssert(len(r.osStdinChan) == 3, "bytes lost or stuck in the handshake queue")
-	want := byte(65)
-	for len(r.osStdinChan) > 0 {
-		b := <-r.osStdinChan
-		verifAssert(len(b) == 1 && b[0] == want, "order")
-		want++
+	want := []byte{}
+	next := byte('A')
+	for i := 0; i < verifBound("PARKED"); i++ {
+		r.stdinBuffer.addBuffer([]byte{next})
+		want = append(want, next)
+		next++
 	}
-	verifAssert(r.relayStatus.Load() == kRelayTransferring, "status")
-	verifReach("done")
+	var chunks [][]byte
+	for i := 0; i < verifBound("ARRIVING"); i++ {
+		chunks = append(chunks, []byte{next})
+		want = append(want, next)
+		next++
+	}
+	r.clientIn = &zzChunks13{chunks: chunks}
+	confirm := verifNondetBool()
+	go r.wrapInput()
+	go r.flushHandshakeBuffer(confirm)
+	verifQuiesce()
+	zzExpect13(zzDrain13(r.osStdinChan), want, "to server")
+	verifAssert(len(r.osStdoutChan) == 0, "client bytes delivered to the client side")
+	if confirm {
+		verifAssert(r.relayStatus.Load() == kRelayTransferring, "status after a confirmed handshake")
+	} else {
+		verifAssert(r.relayStatus.Load() == kRelayStandBy, "status after a refused handshake")
+	}
+	verifAssert(r.stdinBuffer.popBuffer() == nil, "bytes left in the handshake queue")
+	verifReach("flushed")
+}
+
+// server -> client direction
+func zzH_C13_flushRaceOut() {
+	r := zzRelay13()
+	r.relayStatus.Store(kRelayHandshaking)
+	want := []byte{}
+	next := byte('a')
+	for i := 0; i < verifBound("PARKED"); i++ {
+		r.stdoutBuffer.addBuffer([]byte{next})
+		want = append(want, next)
+		next++
+	}
+	var chunks [][]byte
+	for i := 0; i < verifBound("ARRIVING"); i++ {
+		chunks = append(chunks, []byte{next})
+		want = append(want, next)
+		next++
+	}
+	r.serverOut = &zzChunks13{chunks: chunks}
+	confirm := verifNondetBool()
+	go r.wrapOutput()
+	go r.flushHandshakeBuffer(confirm)
+	verifQuiesce()
+	zzExpect13(zzDrain13(r.osStdoutChan), want, "to client")
+	verifAssert(len(r.osStdinChan) == 0, "server bytes delivered to the server side")
+	verifAssert(r.stdoutBuffer.popBuffer() == nil, "bytes left in the handshake queue")
+	verifReach("flushed")
+}
+
+// the flush after the worker consumed a line out of the middle of a chunk: the rest of that chunk goes first
+func zzH_C13_partial() {
+	r := zzRelay13()
+	r.relayStatus.Store(kRelayHandshaking)
+	tok := encodeString("x")
+	x, y, z := verifNondetByte(), verifNondetByte(), verifNondetByte()
+	chunk := append([]byte("#ACT:"+tok+"\n"), x, y)
+	cut := verifNondetRange(1, len(chunk)) // the ACT line and what follows may straddle two reads
+	r.stdinBuffer.addBuffer(chunk[:cut])
+	if cut < len(chunk) {
+		r.stdinBuffer.addBuffer(chunk[cut:])
+	}
+	r.stdinBuffer.addBuffer([]byte{z})
+	verifExpectBlock(1)
+	s, err := recvStringFromBuffer(r.stdinBuffer, "ACT", true)
+	verifExpectBlock(0)
+	verifAssert(err == nil, "ACT line not recognised")
+	verifAssert(s == "x", "ACT payload")
+	r.flushHandshakeBuffer(true)
+	zzExpect13(zzDrain13(r.osStdinChan), []byte{x, y, z}, "to server")
+	verifReach("partial")
+}
+
+// standby: everything passes unchanged in both directions
+func zzH_C13_standby() {
+	r := zzRelay13()
+	n := verifBound("N")
+	in := make([]byte, n)
+	out := make([]byte, n)
+	for i := 0; i < n; i++ {
+		in[i] = verifNondetByte()
+		out[i] = verifNondetByte()
+		verifAssume(out[i] != ':') // cannot contain the trigger marker "::TRZSZ:TRANSFER:"
+	}
+	cut := verifNondetRange(1, n)
+	r.clientIn = &zzChunks13{chunks: [][]byte{in[:cut], in[cut:]}}
+	if cut == n {
+		r.clientIn = &zzChunks13{chunks: [][]byte{in}}
+	}
+	r.serverOut = &zzChunks13{chunks: [][]byte{out}}
+	go r.wrapInput()
+	go r.wrapOutput()
+	verifQuiesce()
+	zzExpect13(zzDrain13(r.osStdinChan), in, "to server")
+	zzExpect13(zzDrain13(r.osStdoutChan), out, "to client")
+	verifAssert(r.relayStatus.Load() == kRelayStandBy, "left standby without a trigger")
+	verifReach("standby")
+}
+
+// zzGate13 is an upstream reader whose chunks are released by the harness (models a peer that answers what it saw).
+type zzGate13 struct{ ch chan []byte }
+
+func (g *zzGate13) Read(p []byte) (int, error) {
+	b := <-g.ch
+	return copy(p, b), nil
+}
+
+func zzHasPrefix13(b []byte, s string) bool {
+	return len(b) >= len(s) && string(b[:len(s)]) == s
+}
+
+// a whole handshake through the real pumps and the real worker, with a client and a server that answer what they see.
+// client: on the trigger sends [ACT line + x] and [y]; server: on the relay's ACT sends [CFG line + p] and [q].
+// Every interleaving of input pump, output pump and handshake worker (within the pre-emption bound) is explored.
+func zzH_C13_handshake() {
+	r := zzRelay13()
+	cin := &zzGate13{make(chan []byte, 4)}
+	sout := &zzGate13{make(chan []byte, 4)}
+	r.clientIn, r.serverOut = cin, sout
+	actOK := verifNondetBool()
+	cfgOK := verifNondetBool()
+	confirmAct := verifNondetBool()
+	go r.wrapInput()
+	go r.wrapOutput()
+
+	sout.ch <- []byte("::TRZSZ:TRANSFER:S:1.1.5:0000000000100\r\n")
+	trig := <-r.osStdoutChan // the client sees the (rewritten) trigger
+	verifAssert(len(trig) > 0, "empty trigger chunk")
+
+	// the client answers
+	js, err := json13(&transferAction{Lang: "go", Version: "1.1.5", Confirm: confirmAct, Newline: "\n", Protocol: 4, SupportBinary: true, SupportDirectory: true})
+	verifAssume(err == nil)
+	actLine := "#ACT:" + encodeString(js) + "\n"
+	if !actOK {
+		actLine = "#ACT:@@@\n"
+	}
+	cin.ch <- append([]byte(actLine), 'x')
+	cin.ch <- []byte{'y'}
+
+	// the server sees what the relay forwards
+	first := <-r.osStdinChan
+	var toServer []byte
+	if actOK {
+		verifAssert(zzHasPrefix13(first, "#ACT:"), "server side: first chunk is not the relay's ACT line")
+	} else {
+		verifAssert(zzHasPrefix13(first, "#FAIL:"), "server side: malformed ACT not answered with FAIL")
+	}
+	if actOK && confirmAct {
+		cjs, err := json13(&transferConfig{Timeout: 20, Newline: "\n", Protocol: 4, MaxBufSize: 1024})
+		verifAssume(err == nil)
+		cfgLine := "#CFG:" + encodeString(cjs) + "\n"
+		if !cfgOK {
+			cfgLine = "#CFG:@@@\n"
+		}
+		sout.ch <- append([]byte(cfgLine), 'p')
+		sout.ch <- []byte{'q'}
+	}
+	verifQuiesce()
+	toServer = zzDrain13(r.osStdinChan)
+	toClient := zzDrain13(r.osStdoutChan)
+
+	wantServer := []byte{'x', 'y'}
+	if actOK && confirmAct && !cfgOK {
+		// the relay reports the malformed CFG to the server as a FAIL line; it may come before or between x and y
+		// only if it was sent before they were flushed: the worker sends FAIL first, then flushes
+		verifAssert(zzHasPrefix13(toServer, "#FAIL:"), "server side: malformed CFG not reported")
+		k := 0
+		for k < len(toServer) && toServer[k] != '\n' {
+			k++
+		}
+		toServer = toServer[k+1:]
+	}
+	zzExpect13(toServer, wantServer, "to server")
+
+	if !actOK {
+		verifAssert(zzHasPrefix13(toClient, "#FAIL:"), "client side: malformed ACT not reported")
+		verifAssert(r.relayStatus.Load() == kRelayStandBy, "status after a failed handshake")
+		verifReach("bad-act")
+		return
+	}
+	if !confirmAct {
+		verifAssert(len(toClient) == 0, "client side: bytes invented")
+		verifAssert(r.relayStatus.Load() == kRelayStandBy, "status after a refused handshake")
+		verifReach("refused")
+		return
+	}
+	if cfgOK {
+		verifAssert(zzHasPrefix13(toClient, "#CFG:"), "client side: first chunk is not the relay's CFG line")
+	} else {
+		verifAssert(zzHasPrefix13(toClient, "#FAIL:"), "client side: malformed CFG not reported")
+	}
+	k := 0
+	for k < len(toClient) && toClient[k] != '\n' {
+		k++
+	}
+	zzExpect13(toClient[k+1:], []byte{'p', 'q'}, "to client")
+	if cfgOK {
+		verifAssert(r.relayStatus.Load() == kRelayTransferring, "status after a confirmed handshake")
+		verifReach("confirmed")
+	} else {
+		verifAssert(r.relayStatus.Load() == kRelayStandBy, "status after a failed handshake")
+		verifReach("bad-cfg")
+	}
 }
